@@ -47,6 +47,7 @@ const (
 	SpVar            // local variable holding a function literal
 	SpImport         // function of the helper package ha
 	SpGeneric        // instantiated generic function gen[Tn]
+	SpMethodVal      // method value hv.Vn: value-receiver method reached through a pointer (the receiver is copied when the method value is evaluated)
 	numSpell
 )
 
